@@ -51,6 +51,8 @@ pub enum Event {
         n_prime: usize,
         s_prime: bool,
         alpha: f64,
+        /// exp(joint - joint_0) as computed, before the leaf's acceptance term is derived from it
+        ratio: f64,
     },
     NutsMerge {
         j: usize,
